@@ -378,6 +378,9 @@ def install_models(reg):
         return it.fresh("str", "extracted")
 
     reg.boundary["ZipFile.infolist"] = zf_infolist
+    # zipfile.ZipInfo.is_dir(): the member's name ends with '/' (that is its definition in the library)
+    reg.boundary["ZipInfo.is_dir"] = lambda it, recv, meth, args, kwargs, fr: VBool(
+        z3.SuffixOf(z3.StringVal("/"), recv.items[recv.ntfields.index("filename")].z))
     reg.boundary["ZipFile.extract"] = zf_extract
 
 
@@ -469,6 +472,23 @@ def install_spec(reg):
         return VBool(all(e[1][0] in ops for e in tr[start:] if e[0] == "fs"))
 
     sf["iter_fs_only"] = iter_fs_only
+
+    def iter_evs(it):
+        tr = it.ctx.trace
+        marks = [i for i, e in enumerate(tr) if e[0] == "loop-body-start"]
+        start = marks[-1] if marks else len(tr)
+        return [e[1] for e in tr[start:] if e[0] == "fs"]
+
+    sf["iter_fs_ops"] = lambda it: VList([VStr(e[0]) for e in iter_evs(it)])
+
+    def iter_fs_arg(it, op, k, i):
+        op, k, i = it.concrete(op), it.concrete(k), it.concrete(i)
+        es = [e for e in iter_evs(it) if e[0] == op]
+        if k >= len(es):
+            return NONE
+        return es[k][1][i]
+
+    sf["iter_fs_arg"] = iter_fs_arg
 
 
 # ------------------------------------------------------------------ contracts
@@ -661,7 +681,11 @@ CONTRACTS = [
              ensures_raise=on_any_raise(["ValueError", "OSError", "BadZipFile"],
                                         [("confined", "fs_confined(self.abs_destname) and fs_only('extract', 'chmod')")]),
              loops={0: {"header": "for info in zf.infolist()", "modifies": FS_MOD,
-                        "invariant": ["fs_confined(self.abs_destname)", "iter_fs_only('extract', 'chmod')"]}},
+                        "invariant": ["fs_confined(self.abs_destname)", "iter_fs_only('extract', 'chmod')"],
+                        # C04: the tree produced is the tree that was sent: EVERY member of the archive (files and the
+                        # explicit entries of empty directories alike) is unpacked, once, into the announced destination
+                        "body_ensures": ["iter_fs_ops() == ['extract', 'chmod'] and iter_fs_arg('extract', 0, 0) == info.filename and "
+                                         "iter_fs_arg('extract', 0, 1) == self.abs_destname"]}},
              note="the invariant is over the ghost event trace: events before the loop at entry, plus those of the iteration "
                   "when it is re-established; the exit path carries the events before and after the loop"),
     # ---------------------------------------------------------------- composition (callees by contract only)
